@@ -282,7 +282,16 @@ pub mod time {
             Instant::now()
         }
         pub fn period(&self) -> Duration { self.period }
+        /// tokio contract: `reset()` re-arms the timer one full period from *now*, `reset_after(d)` d from now,
+        /// `reset_at(t)` at t - each pushes the next tick back relative to the running schedule (counted, C07);
+        /// `reset_immediately()` makes the next tick due at once (not a delay, not counted)
+        pub fn reset(&mut self) { unsafe { INTERVAL_DELAYS += 1; } }
+        pub fn reset_after(&mut self, d: Duration) { if d > Duration::ZERO { unsafe { INTERVAL_DELAYS += 1; } } }
+        pub fn reset_at(&mut self, _t: Instant) { unsafe { INTERVAL_DELAYS += 1; } }
+        pub fn reset_immediately(&mut self) {}
     }
+    /// number of times a running interval was re-armed so that its next tick moved back (C07 reads it)
+    global!(INTERVAL_DELAYS, set_interval_delays, interval_delays, u32, 0);
     #[derive(Debug, PartialEq, Eq)]
     pub struct Elapsed;
     impl std::fmt::Display for Elapsed { fn fmt(&self, f: &mut std::fmt::Formatter<'_>) -> std::fmt::Result { f.write_str("deadline has elapsed") } }
